@@ -21,6 +21,8 @@ CONSTANTS Callers,            \* set of caller goroutines (one request each)
           AllowRdFail, AllowWrFail,
           AllowCancel,        \* callers may give up waiting (context cancelled) while their request is outstanding
           ChanCap1,           \* result channels have capacity >= 1 (sendPacket replaces an unbuffered channel)
+          AtomicPutCheck,     \* putChannel looks at `closed` and registers under ONE hold of the inflight mutex
+          CloseStopsWrites,   \* the transport's Close makes later writes fail (FALSE: a half-open link / a no-op Close)
           SendErrToRegistered,\* a failed write is reported on the channel taken back from `inflight` (after broadcastErr: the throw-away
                               \* channel), not on the caller's own channel, which may already hold the broadcast result
           KeepSlotOnCancel    \* a cancelled call leaves its in-flight slot registered until the reply arrives
@@ -91,6 +93,7 @@ NextIdWrite(c) ==
 
 (* putChannel (under the inflight mutex; broadcastErr holds the same mutex for its whole loop) *)
 PutChannel(c) ==
+  /\ AtomicPutCheck
   /\ pc[c] = "gotid" /\ recvPc # "bcast"
   /\ IF closed /\ RefuseAfterClosed
        THEN /\ CanSend(c) /\ Send(c, R("connlost", 0))
@@ -100,6 +103,23 @@ PutChannel(c) ==
             /\ pc' = [pc EXCEPT ![c] = "registered"]
             /\ UNCHANGED <<chanBuf, delivered>>
   /\ UNCHANGED <<tmpid, id, nextid, result, wlock, wire, srvSeen, s2c, rd, wr, recvPc, closed, bcastTodo>>
+
+(* ablation ~AtomicPutCheck: the look at `closed` happens before the mutex is taken, the registration under it *)
+PutCheck(c) ==
+  /\ ~AtomicPutCheck
+  /\ pc[c] = "gotid"
+  /\ IF closed /\ RefuseAfterClosed
+       THEN /\ CanSend(c) /\ Send(c, R("connlost", 0))
+            /\ pc' = [pc EXCEPT ![c] = "sent"]
+       ELSE /\ pc' = [pc EXCEPT ![c] = "checked"]
+            /\ UNCHANGED <<chanBuf, delivered>>
+  /\ UNCHANGED <<tmpid, id, nextid, inflight, result, wlock, wire, srvSeen, s2c, rd, wr, recvPc, closed, bcastTodo>>
+
+PutRegister(c) ==
+  /\ pc[c] = "checked" /\ recvPc # "bcast"
+  /\ inflight' = Put(inflight, id[c], c)
+  /\ pc' = [pc EXCEPT ![c] = "registered"]
+  /\ UNCHANGED <<tmpid, id, nextid, chanBuf, delivered, result, wlock, wire, srvSeen, s2c, rd, wr, recvPc, closed, bcastTodo>>
 
 (* conn.sendPacket: Lock; Write(header); [Write(payload)]; Unlock *)
 SendHdr(c) ==
@@ -199,7 +219,7 @@ RecvErr ==
 (* defer c.conn.Close(): needs the conn write mutex; afterwards every write fails *)
 RecvCloseWriter ==
   /\ recvPc = "closing" /\ (SendLock => wlock = "free")
-  /\ wr' = "failed"
+  /\ wr' = IF CloseStopsWrites THEN "failed" ELSE wr
   /\ recvPc' = "bcast" /\ bcastTodo' = Dom(inflight)
   /\ UNCHANGED <<pc, tmpid, id, nextid, inflight, chanBuf, result, delivered, wlock, wire, srvSeen, s2c, rd, closed>>
 
@@ -222,7 +242,7 @@ AllDone == \A c \in Callers : pc[c] = "done"
 Quiet == AllDone /\ UNCHANGED vars
 
 Next ==
-  \/ \E c \in Callers : NextIdAtomic(c) \/ NextIdRead(c) \/ NextIdWrite(c) \/ PutChannel(c) \/ SendHdr(c) \/ SendPayload(c)
+  \/ \E c \in Callers : NextIdAtomic(c) \/ NextIdRead(c) \/ NextIdWrite(c) \/ PutChannel(c) \/ PutCheck(c) \/ PutRegister(c) \/ SendHdr(c) \/ SendPayload(c)
                         \/ Unlock(c) \/ SendFails(c) \/ Wait(c) \/ Cancel(c)
   \/ \E i \in srvSeen : SrvReply(i)
   \/ RdFail \/ WrFail \/ RecvDeliver \/ RecvErr \/ RecvCloseWriter \/ BcastOne \/ BcastDone
